@@ -177,27 +177,32 @@ Fixpoint dec_list (fuel : nat) (l : list N) (i acc : N) : vres :=
 Lemma nth_error_skipn {A} (l : list A) i : nth_error l i = hd_error (skipn i l).
 Proof. revert l; induction i as [|i IH]; intros [|x l]; cbn; auto. Qed.
 
+Lemma tail_length b : bb_inv b -> length (bb_tail b) = N.to_nat (bb_size b - bb_offset b).
+Proof.
+  intros (Ho & Hu & Hs). unfold bb_tail. rewrite skipn_length, firstn_length. lia.
+Qed.
+
 Lemma decode_loop_list fuel : forall b i acc, bb_inv b ->
-  vi_decode_loop fuel b i acc = dec_list fuel (skipn (N.to_nat i) (bb_unread b)) i acc.
+  vi_decode_loop fuel b i acc = dec_list fuel (skipn (N.to_nat i) (bb_tail b)) i acc.
 Proof.
   induction fuel as [|f IH]; intros b i acc Hi; [reflexivity|].
   cbn [vi_decode_loop dec_list].
-  pose proof (unread_length b Hi) as Hl.
-  destruct (N.leb_spec (bb_rest b) i) as [Hr|Hr].
+  pose proof (tail_length b Hi) as Hl.
+  destruct (N.leb_spec (bb_size b - bb_offset b) i) as [Hr|Hr].
   - rewrite skipn_all2 by lia. reflexivity.
-  - assert (E : nth_error (bb_mem b) (N.to_nat (bb_offset b + i)) = hd_error (skipn (N.to_nat i) (bb_unread b))).
-    { unfold bb_unread, bb_filled. rewrite <- skipn_add, nth_error_skipn.
-      destruct Hi as (Ho & Hu & Hs). unfold bb_rest in Hr.
+  - assert (E : nth_error (bb_mem b) (N.to_nat (bb_offset b + i)) = hd_error (skipn (N.to_nat i) (bb_tail b))).
+    { unfold bb_tail. rewrite <- skipn_add, nth_error_skipn.
+      destruct Hi as (Ho & Hu & Hs).
       replace (N.to_nat i + N.to_nat (bb_offset b))%nat with (N.to_nat (bb_offset b + i)) by lia.
       rewrite skipn_firstn_comm.
       destruct (skipn (N.to_nat (bb_offset b + i)) (bb_mem b)) as [|x t] eqn:Es.
       - exfalso. assert (length (skipn (N.to_nat (bb_offset b + i)) (bb_mem b)) = 0%nat) by (rewrite Es; reflexivity).
         rewrite skipn_length in H. lia.
-      - replace (N.to_nat (bb_used b) - N.to_nat (bb_offset b + i))%nat with (S (N.to_nat (bb_used b) - N.to_nat (bb_offset b + i) - 1)) by lia.
+      - replace (N.to_nat (bb_size b) - N.to_nat (bb_offset b + i))%nat with (S (N.to_nat (bb_size b) - N.to_nat (bb_offset b + i) - 1)) by lia.
         reflexivity. }
     rewrite E.
-    destruct (skipn (N.to_nat i) (bb_unread b)) as [|d r] eqn:Es.
-    + exfalso. assert (length (skipn (N.to_nat i) (bb_unread b)) = 0%nat) by (rewrite Es; reflexivity).
+    destruct (skipn (N.to_nat i) (bb_tail b)) as [|d r] eqn:Es.
+    + exfalso. assert (length (skipn (N.to_nat i) (bb_tail b)) = 0%nat) by (rewrite Es; reflexivity).
       rewrite skipn_length in H. lia.
     + cbn [hd_error]. destruct (N.land d 128 =? 0); [reflexivity|].
       rewrite IH by exact Hi.
@@ -240,14 +245,14 @@ Proof.
   intros b. unfold vi_from_source, src_plain. rewrite from_source_list.
   unfold vi_decode. rewrite decode_loop_list.
   2:{ unfold bb_inv, b; cbn. lia. }
-  replace (skipn (N.to_nat 0) (bb_unread b)) with l.
-  2:{ unfold bb_unread, bb_filled, b; cbn [bb_mem bb_used bb_offset]. cbn [N.to_nat skipn].
+  replace (skipn (N.to_nat 0) (bb_tail b)) with l.
+  2:{ unfold bb_tail, b; cbn [bb_mem bb_size bb_offset]. cbn [N.to_nat skipn].
       rewrite Nat2N.id, firstn_all. reflexivity. }
   destruct (dec_list _ _ _ _); reflexivity.
 Qed.
 
-(* the buffer decoder's result depends on the unread octets only (it reads nothing else) *)
-Theorem decode_reads_unread_only k b1 b2 : bb_inv b1 -> bb_inv b2 -> bb_unread b1 = bb_unread b2 ->
+(* the buffer decoder's result depends on the octets in [offset, size) only (it reads nothing else) *)
+Theorem decode_reads_unread_only k b1 b2 : bb_inv b1 -> bb_inv b2 -> bb_tail b1 = bb_tail b2 ->
   match fst (vi_decode k b1), fst (vi_decode k b2) with
   | VOk u1 c1, VOk u2 c2 => u1 = u2 /\ c1 = c2
   | VIllegal, VIllegal | VShort, VShort => True
@@ -339,7 +344,7 @@ Proof.
 Qed.
 
 (* buffer decoder round trip: a buffer whose unread octets start with the encoding *)
-Theorem decode_buf_roundtrip k b n r : bb_inv b -> bb_unread b = vi_encode n ++ r ->
+Theorem decode_buf_roundtrip k b n r : bb_inv b -> bb_tail b = vi_encode n ++ r ->
   n < 2 ^ (match k with KU32 | KS32 => 32 | _ => 64 end) ->
   exists b', vi_decode k b = (VOk n (vi_length n), b') /\
              bb_offset b' = bb_offset b + vi_length n /\ bb_mem b' = bb_mem b /\ bb_used b' = bb_used b.
